@@ -894,6 +894,8 @@ def pred_lang(test, var, alpha):
             return go(t.operand).complement()
         if norm(t) == var:
             return rl('.+')
+        if norm(t) in ('%s.strip()' % var, '%s.lstrip()' % var, '%s.rstrip()' % var):
+            return rl(r'.*\S.*')
         if isinstance(t, ast.Compare) and len(t.ops) == 1:
             l, op, r = t.left, t.ops[0], t.comparators[0]
             if isinstance(r, ast.Constant) and isinstance(r.value, str):
@@ -901,6 +903,12 @@ def pred_lang(test, var, alpha):
                 res = None
                 if norm(l) == var:
                     res = rl(re.escape(c))
+                elif norm(l) == '%s.strip()' % var and c == c.strip():
+                    res = rl(r'\s*' + re.escape(c) + r'\s*') if c else rl(r'\s*')
+                elif norm(l) == '%s.lstrip()' % var and c == c.lstrip():
+                    res = rl(r'\s*' + re.escape(c))
+                elif norm(l) == '%s.rstrip()' % var and c == c.rstrip():
+                    res = rl(re.escape(c) + r'\s*')
                 elif isinstance(l, ast.Subscript) and norm(l.value) == var and len(c) == 1:
                     try:
                         k = ast.literal_eval(l.slice)
